@@ -265,6 +265,86 @@ def c10_3(c: Ctx) -> None:
             c.fail(u, f'cleanup wait on the cancelled handler task is unbounded: {U(v)[:60]}', 'a handler that ignores cancellation blocks the bus forever', node=a)
 
 
+def _strip_order(e: ast.AST) -> ast.AST:
+    """list(x) / reversed(x) / x[:] / [*x] hold the elements of x."""
+    while True:
+        if isinstance(e, ast.Call) and isinstance(e.func, ast.Name) and e.func.id in ('list', 'reversed', 'tuple') and len(e.args) == 1 and not e.keywords:
+            e = e.args[0]
+        elif isinstance(e, ast.Subscript) and isinstance(e.slice, ast.Slice) and e.slice.lower is None and e.slice.upper is None:
+            e = e.value
+        elif isinstance(e, ast.List) and len(e.elts) == 1 and isinstance(e.elts[0], ast.Starred):
+            e = e.elts[0].value
+        else:
+            return e
+
+
+def _cancel_stack_of_descendants(c: Ctx, u: Unit, g, self_: str, wl: ast.While, W: str, P: str) -> bool:
+    """The walk written as a stack of *descendants*: `todo = <the children>; while todo: d = todo.pop(); cancel d's pending results; todo.extend(<d's children>)`.  An element may
+    be skipped only when it was visited before (a seen-set that is added to right after the test) or has no results."""
+    from sa.cfg import search
+
+    heads = g.nodes_of(wl, ('while',))
+    if not heads:
+        return False
+    head = heads[0]
+    res_loops = [n for n in ast.walk(wl) if isinstance(n, ast.For) and U(n.iter) == f'{P}.event_results.values()']
+    pushes = {n.id for n in g.live_nodes() if any(call_name(x) in ('extend', 'append') and isinstance(x.func, ast.Attribute) and U(x.func.value) == W and x.args and
+                                                  (U(_strip_order(x.args[0])) == f'{P}.event_children' or (call_name(x) == 'append' and any(isinstance(l, ast.For) and U(_strip_order(l.iter)) == f'{P}.event_children' and U(x.args[0]) == U(l.target) for l in q.ancestors_of(x))))
+                                                  for x in q.node_calls(n))}
+    if len(res_loops) != 1 or not pushes:
+        return False
+    c.ok(where(u, wl), f'explicit stack `{W}` of descendants, starting from the children of the event: every element taken off it has its results looked at and its children pushed')
+    rl_heads = {n.id for n in g.nodes_of(res_loops[0], ('for',))}
+    seen_tests = set()
+    for n in ast.walk(wl):
+        if isinstance(n, ast.If) and isinstance(n.test, ast.Compare) and len(n.test.ops) == 1 and isinstance(n.test.ops[0], ast.In) and U(n.test.left) in (f'{P}.event_id', P) and isinstance(n.test.comparators[0], ast.Name):
+            S = n.test.comparators[0].id
+            blk = q.block_of(n) or []
+            i = next((k for k, x in enumerate(blk) if x is n), None)
+            nxt = blk[i + 1] if i is not None and i + 1 < len(blk) else None
+            if nxt is not None and isinstance(nxt, ast.Expr) and isinstance(nxt.value, ast.Call) and call_name(nxt.value) == 'add' and U(nxt.value.func.value) == S and U(nxt.value.args[0]) == U(n.test.left):
+                seen_tests.add(id(n))
+    fres = Facts(lambda a: a == f'{P}.event_results')
+
+    def allowed_skip(n, e) -> bool:
+        if n.kind != 'if' or e.label not in ('true', 'false'):
+            return False
+        if id(n.ast) in seen_tests and e.label == 'true':
+            return True  # visited before: its results and children were dealt with then
+        if any(isinstance(x, ast.Call) for x in ast.walk(n.ast.test)):
+            return False
+        env_ = fres.assume(n.ast.test, e.label == 'true', {})
+        return env_ is not None and fres.eval(ast.parse(f'{P}.event_results', mode='eval').body, env_) is False
+
+    for what, barrier in (('has its results looked at', rl_heads), ('has its children pushed', pushes)):
+        p = search([(head, ())], is_target=lambda n, d: n is head, is_barrier=lambda n, d, barrier=barrier: n.id in barrier,
+                   edge_ok=lambda n, e, d: None if (e.is_exc or (n is head and e.label != 'true') or allowed_skip(n, e)) else d)
+        if p is None:
+            c.ok(where(u, wl), f'every descendant taken off the stack {what} (skipped only if seen before or without results)')
+        else:
+            cond = next((s_.node.text(70) for s_ in p if s_.node.kind == 'if'), 'a path through the loop body')
+            c.fail(u, f'a descendant can be taken off the stack and not {what.replace("has its", "have its")}: `{cond}`', 'grandchildren keep pending results after a timeout: a child whose own results are final can still have a handler that was '
+                   'waiting for a grandchild with pending results', node=wl, witness=c.path(head, p))
+    for n in ast.walk(wl):
+        if isinstance(n, (ast.Break, ast.Return)):
+            c.fail(u, f'the walk is left early: {q.stmt_text(n)}', 'not every child is visited', node=n)
+    ups = [n for n in ast.walk(wl) if isinstance(n, ast.Call) and call_name(n) == 'update' and isinstance(n.func, ast.Attribute)]
+    c.floor(len(ups), 1, 'update(error=...) calls')
+    for call in ups:
+        r = U(call.func.value)
+        atom = eq_atom(f'{r}.status', "'pending'")
+        facts = Facts(lambda a: a == atom, cg=c.cg, unit=u)
+        for n in g.nodes_of(q.stmt_of(call)):
+            p2 = q.guard_search(g, n, f"{r}.status == 'pending'", facts)
+            if p2 is None:
+                c.ok(where(u, call), f"{r}.update(error=...) only for results still 'pending'")
+            else:
+                c.fail(u, f"{r}.update(...) not guarded by {r}.status == 'pending'", 'a timeout rewrites child results that already started or finished', node=call, witness=c.path(g.entry, p2))
+        if q.kw(call, 'error') is None:
+            c.fail(u, f'{U(call)[:60]} does not record an error', 'cancelled child results do not become terminal', node=call)
+    return True
+
+
 def _cancel_worklist_design(c: Ctx, u: Unit, g, self_: str) -> bool:
     """The same walk written with an explicit worklist instead of recursion: `todo = [self]; while todo: p = todo.pop(); for every child of p: cancel its pending results;
     todo.append(child)`.  A child may be skipped only when it has no results at all (never picked up by a bus: nothing pending, no descendants).  Returns False when the
@@ -277,7 +357,7 @@ def _cancel_worklist_design(c: Ctx, u: Unit, g, self_: str) -> bool:
     wl = whiles[0]
     W = wl.test.id
     inits = [n for n in own_nodes(u.node) if isinstance(n, (ast.Assign, ast.AnnAssign)) and n.value is not None and U(n.targets[0] if isinstance(n, ast.Assign) else n.target) == W]
-    if len(inits) != 1 or U(inits[0].value) not in (f'[{self_}]', f'list({self_}.event_children)', f'[*{self_}.event_children]'):
+    if len(inits) != 1 or (U(inits[0].value) != f'[{self_}]' and U(_strip_order(inits[0].value)) != f'{self_}.event_children'):
         return False
     pops = [n for n in ast.walk(wl) if isinstance(n, ast.Assign) and isinstance(n.value, ast.Call) and call_name(n.value) == 'pop' and U(n.value.func.value) == W and isinstance(n.targets[0], ast.Name)]
     if len(pops) != 1:
@@ -286,6 +366,8 @@ def _cancel_worklist_design(c: Ctx, u: Unit, g, self_: str) -> bool:
     starts_with_self = U(inits[0].value) == f'[{self_}]'
     # the loop over the children of the popped event
     child_loops = [n for n in ast.walk(wl) if isinstance(n, ast.For) and isinstance(n.target, ast.Name) and (U(n.iter) == f'{P}.event_children' or U(n.iter).endswith('.event_children'))]
+    if not child_loops and not starts_with_self:
+        return _cancel_stack_of_descendants(c, u, g, self_, wl, W, P)
     child_loops = [n for n in child_loops if U(n.iter) == f'{P}.event_children' or any(isinstance(o, ast.For) and U(o.iter) == f'{P}.event_results.values()' and U(n.iter) == f'{U(o.target)}.event_children'
                                                                                    for o in q.ancestors_of(n))]
     if len(child_loops) != 1:
